@@ -341,7 +341,8 @@ type ParseResult struct {
 	ErrTok        int      // scan index of the token reported with a failure; -1 when accepted
 	Expected      []string // names of the terminals with an entry in the row where the error was raised
 	Custom        bool     // failure caused by an action error
-	StepsExceeded bool     // the reference itself hit its step bound: inconclusive
+	StepsExceeded bool     // the reference itself hit its step bound: inconclusive unless Diverges
+	Diverges      bool     // with StepsExceeded: proven never to terminate (a reduction cycle that consumes no input)
 	Recoveries    int      // number of successful recoveries
 	ErrorShifts   int      // number of times the error symbol was shifted (recovered or not)
 	Scans         int      // Scan calls made
@@ -369,10 +370,17 @@ func (l *LR1) Parse(toks []int, o ParseOpts) ParseResult {
 		}
 		return 0
 	}
+	// configurations (top state, stack height) since the last scan or recovery: the machine is
+	// deterministic and the look-ahead fixed, so if a top state recurs at a height not below the
+	// earlier one and the stack never shrank below the earlier height in between, the same moves
+	// repeat for ever.
+	type conf struct{ top, h int }
+	var since []conf
 	scan := func() {
 		scanIdx++
 		res.Scans++
 		log = append(log, fmt.Sprintf("s%d", scanIdx))
+		since = since[:0]
 	}
 	scan()
 	nodes, calls := 0, 0
@@ -390,10 +398,23 @@ func (l *LR1) Parse(toks []int, o ParseOpts) ParseResult {
 	for steps := 0; ; steps++ {
 		if steps > maxSteps {
 			res.StepsExceeded = true
+			if n := len(since); n > 1 {
+				last, minH := since[n-1], since[n-1].h
+				for i := n - 2; i >= 0; i-- {
+					if since[i].top == last.top && since[i].h <= minH {
+						res.Diverges = true
+						break
+					}
+					if since[i].h < minH {
+						minH = since[i].h
+					}
+				}
+			}
 			res.Log = strings.Join(log, " ")
 			return res
 		}
 		top := states[len(states)-1]
+		since = append(since, conf{top, len(states)})
 		if len(states) > res.MaxDepth {
 			res.MaxDepth = len(states)
 		}
@@ -446,6 +467,7 @@ func (l *LR1) Parse(toks []int, o ParseOpts) ParseResult {
 				return res
 			}
 			res.Recoveries++
+			since = since[:0]
 			continue
 		}
 		switch act.Kind {
